@@ -22,10 +22,17 @@ package producer
 //	      reading just before it is handed over, waits until the producer is blocked in the MIDDLE
 //	      of writing it, then closes (unix) / resets (tcp) the connection and reads normally again:
 //	      the failed write has put part of the line on the wire
+//	z<k>  (unix, tcp) message k is made large in the same way; the sink stops reading just before it is
+//	      handed over and stays silent for the stall duration (3.5 s, $VERIF_PRODUCER_STALL_MS), then
+//	      reads everything. It never closes the connection: a sink that is healthy but slow. The
+//	      producer sits in the write until the sink reads again — the stall is not a fault, every
+//	      message must arrive exactly once, in order, unmodified (for the model the event is absent).
+//	      A case line with a z event runs in a lane of its own, next to the other cases of the input
+//	      (see TestVerifRawSocket), so its seconds of silence cost no wall time when it comes last.
 //
 // impl line: "ec=<MQErrorCount> recv=<runs>" where runs lists, per sink connection in accept
 // order, the maximal runs of consecutive message indices received, e.g. "c0[0-2] c1[4-9]";
-// for scripts whose outcome depends on kernel timing (faults on tcp/udp) the line is "nd".
+// for scripts whose outcome depends on kernel timing (faults on tcp/udp; stalls alone are no faults) the line is "nd".
 //
 // With the first word `producerx` the impl line carries the outcome script the producer actually
 // experienced, reconstructed per message from its own log lines and from what the sink received:
@@ -384,7 +391,7 @@ func verifParseEvents(s string) ([]verifEvent, error) {
 	}
 	var evs []verifEvent
 	for _, f := range strings.Split(s, ",") {
-		if len(f) < 2 || !strings.ContainsRune("crdus", rune(f[0])) {
+		if len(f) < 2 || !strings.ContainsRune("crdusz", rune(f[0])) {
 			return nil, fmt.Errorf("bad event %q", f)
 		}
 		k, err := strconv.Atoi(f[1:])
@@ -421,8 +428,24 @@ func verifShort(b []byte) string {
 	return fmt.Sprintf("%q", b)
 }
 
-// verifRawSocketCase runs one case and returns (impl line, verdict)
-func verifRawSocketCase(dir string, caseNo int, line string) (string, string) {
+// verifStallDuration: how long a z event keeps the sink silent
+func verifStallDuration() time.Duration {
+	if ms, err := strconv.Atoi(os.Getenv("VERIF_PRODUCER_STALL_MS")); err == nil && ms > 0 {
+		return time.Duration(ms) * time.Millisecond
+	}
+	return 3500 * time.Millisecond
+}
+
+// verifHasStall: the case line carries a z event (it runs in the second lane)
+func verifHasStall(line string) bool {
+	f := strings.Fields(line)
+	return len(f) == 6 && strings.Contains(f[5], "z")
+}
+
+// verifRawSocketCase runs one case and returns (impl line, verdict); lane 0 = the cases run one
+// after the other by the test's own goroutine, lane 1 = the cases with a z event, run one after the
+// other next to them (the lanes draw their tcp/udp ports from disjoint parts of the process's block)
+func verifRawSocketCase(dir string, caseNo int, line string, lane int) (string, string) {
 	f := strings.Fields(line)
 	if len(f) != 6 || (f[0] != "producer" && f[0] != "producerx") {
 		return "bad-op", "fail:bad case line"
@@ -440,8 +463,15 @@ func verifRawSocketCase(dir string, caseNo int, line string) (string, string) {
 		maxLen = 8000
 	}
 	big := map[int]int{}
+	onlyStalls := len(events) > 0 // every event is a z: no fault is injected at all
 	for _, e := range events {
-		if e.kind == 's' && e.at < n {
+		if e.kind != 'z' {
+			onlyStalls = false
+		}
+		if e.kind == 'z' && proto == "udp" {
+			return "bad-op", "fail:z events need a stream socket"
+		}
+		if (e.kind == 's' || e.kind == 'z') && e.at < n {
 			if proto == "udp" {
 				return "bad-op", "fail:s events need a stream socket"
 			}
@@ -468,7 +498,11 @@ func verifRawSocketCase(dir string, caseNo int, line string) (string, string) {
 	if sink.addr == "" {
 		var err error
 		for try := 0; try < 40; try++ {
-			sink.addr = fmt.Sprintf("127.0.0.1:%d", 20000+(os.Getpid()%590)*20+(caseNo+try)%20)
+			port := (caseNo + try) % 16
+			if lane != 0 {
+				port = 16 + (caseNo+try)%4
+			}
+			sink.addr = fmt.Sprintf("127.0.0.1:%d", 20000+(os.Getpid()%590)*20+port)
 			if err = sink.listenOnce(); err == nil {
 				break
 			}
@@ -495,10 +529,13 @@ func verifRawSocketCase(dir string, caseNo int, line string) (string, string) {
 	var ec uint64
 	ch := make(chan []byte)
 	done := make(chan struct{})
+	gidCh := make(chan string, 1)
 	go func() {
+		gidCh <- verifGoroutineHeader()
 		rs.inputMsg("vflow.test", ch, &ec)
 		close(done)
 	}()
+	gid := <-gidCh // this case's inputMsg goroutine (another lane runs one of its own)
 
 	// After handing over message k, wait until it has been fully processed: its octets arrived at
 	// the sink, or the producer logged that it gave the message up. Exact on unix sockets and on
@@ -509,7 +546,7 @@ func verifRawSocketCase(dir string, caseNo int, line string) (string, string) {
 	awaitProcessed := func(got0, gu0, size int) {
 		// 1. the producer is back at `<-mCh`: the message has been delivered, lost or given up and
 		//    everything it logs about it has been logged (exact: read off the goroutine's state)
-		for !verifInputMsgIdle() && time.Now().Before(caseDeadline) {
+		for !verifInputMsgIdle(gid) && time.Now().Before(caseDeadline) {
 			time.Sleep(20 * time.Microsecond)
 		}
 		// 2. what it wrote has been read by the sink: exact on unix sockets (a write that returned nil
@@ -537,14 +574,25 @@ func verifRawSocketCase(dir string, caseNo int, line string) (string, string) {
 	}
 	mlog := make([]msgLog, n)
 	lastFault := -1
+	stallDur := verifStallDuration()
+	neverBlocked := -1 // a z event during which the producer was never seen blocked in the write
 	for k := 0; k < n; k++ {
-		stallHere := false
+		stallHere, silentHere := false, false
+		var silentSince time.Time
 		for _, e := range events {
 			if e.at != k {
 				continue
 			}
-			lastFault = k
+			if e.kind != 'z' {
+				lastFault = k
+			}
 			switch e.kind {
+			case 'z':
+				if !silentHere {
+					silentHere, silentSince = true, time.Now()
+					atomic.StoreInt32(&sink.stall, 1)
+					time.Sleep(300 * time.Microsecond)
+				}
 			case 's':
 				stallHere = true
 				atomic.StoreInt32(&sink.stall, 1)
@@ -580,7 +628,7 @@ func verifRawSocketCase(dir string, caseNo int, line string) (string, string) {
 			// buffers are full): its goroutine sits in "IO wait" and nothing moves any more
 			blockedSince, lastGot, blocked := time.Time{}, -1, false
 			for deadline := time.Now().Add(3 * time.Second); time.Now().Before(deadline); time.Sleep(200 * time.Microsecond) {
-				st := verifInputMsgState()
+				st := verifInputMsgState(gid)
 				if strings.Contains(st, "chan receive") {
 					break // no write of this message ever blocked (given up on a dead connection)
 				}
@@ -598,7 +646,41 @@ func verifRawSocketCase(dir string, caseNo int, line string) (string, string) {
 			if blocked {
 				sink.closeConns(proto == "tcp") // kills the write half-way
 			}
-			atomic.StoreInt32(&sink.stall, 0)
+			if !silentHere {
+				atomic.StoreInt32(&sink.stall, 0)
+			}
+		}
+		if silentHere {
+			// the sink stays connected and silent; the producer can only wait in its write (or, after
+			// another event of the script, fail on a dead connection and finish with the message early)
+			sawBlocked := false
+			for end := silentSince.Add(stallDur); time.Now().Before(end); time.Sleep(4 * time.Millisecond) {
+				st := verifInputMsgState(gid)
+				if strings.Contains(st, "IO wait") {
+					sawBlocked = true
+				} else if strings.Contains(st, "chan receive") {
+					break
+				}
+			}
+			if !sawBlocked && neverBlocked < 0 {
+				neverBlocked = k
+			}
+			atomic.StoreInt32(&sink.stall, 0) // the sink reads again, everything that was and will be written
+			// ... and has read it before the script goes on: a reset later in the script must not
+			// find megabytes of this message still unread in the socket buffers and discard them
+			for !verifInputMsgIdle(gid) && time.Now().Before(caseDeadline) {
+				time.Sleep(200 * time.Microsecond)
+			}
+			last, since := sink.received(), time.Now()
+			for lim := time.Now().Add(2 * time.Second); time.Now().Before(lim) && time.Since(since) < 30*time.Millisecond; time.Sleep(200 * time.Microsecond) {
+				got := sink.received()
+				if got >= got0+len(msgs[k])+1 {
+					break
+				}
+				if got != last {
+					last, since = got, time.Now()
+				}
+			}
 		}
 		if perMessage {
 			awaitProcessed(got0, gu0, len(msgs[k])+1)
@@ -716,8 +798,11 @@ func verifRawSocketCase(dir string, caseNo int, line string) (string, string) {
 	}
 	errs := int(ec)
 	impl := fmt.Sprintf("ec=%d recv=%s", errs, verifRuns(idx))
-	deterministic := proto == "unix" || len(events) == 0
-	if len(events) == 0 {
+	deterministic := proto == "unix" || len(events) == 0 || onlyStalls
+	if onlyStalls && neverBlocked >= 0 {
+		return "env", fmt.Sprintf("fail:env the silent sink did not block the producer at message %d (%d octets fitted the socket buffers): the stall tested nothing", neverBlocked, len(msgs[neverBlocked]))
+	}
+	if len(events) == 0 || onlyStalls { // a sink that is slow for a while is no fault
 		if ndel != n {
 			return impl, fmt.Sprintf("fail:lost no fault was injected but only %d of %d messages arrived", ndel, n)
 		}
@@ -781,17 +866,27 @@ func verifRawSocketCase(dir string, caseNo int, line string) (string, string) {
 
 // verifInputMsgIdle reports whether the goroutine running RawSocket.inputMsg is blocked receiving
 // from its channel, i.e. it has finished with every message handed over so far
-func verifInputMsgIdle() bool {
-	return strings.Contains(verifInputMsgState(), "[chan receive")
+func verifInputMsgIdle(gid string) bool {
+	return strings.Contains(verifInputMsgState(gid), "[chan receive")
 }
 
-// verifInputMsgState returns the header line ("goroutine N [state]:") of the goroutine running
-// RawSocket.inputMsg, "" when there is none
-func verifInputMsgState() string {
-	buf := make([]byte, 1<<18)
+// verifGoroutineHeader returns "goroutine N " of the calling goroutine
+func verifGoroutineHeader() string {
+	buf := make([]byte, 64)
+	buf = buf[:runtime.Stack(buf, false)]
+	if i := bytes.IndexByte(buf, '['); i > 0 {
+		return string(buf[:i])
+	}
+	return ""
+}
+
+// verifInputMsgState returns the header line ("goroutine N [state]:") of the goroutine `gid`
+// ("goroutine N ", see verifGoroutineHeader) while it runs RawSocket.inputMsg, "" when it does not
+func verifInputMsgState(gid string) string {
+	buf := make([]byte, 1<<19)
 	buf = buf[:runtime.Stack(buf, true)]
 	for _, blk := range strings.Split(string(buf), "\n\n") {
-		if strings.Contains(blk, "(*RawSocket).inputMsg") {
+		if strings.HasPrefix(blk, gid) && strings.Contains(blk, "(*RawSocket).inputMsg") {
 			if i := strings.IndexByte(blk, '\n'); i >= 0 {
 				return blk[:i]
 			}
@@ -833,18 +928,52 @@ func TestVerifRawSocket(t *testing.T) {
 	defer os.RemoveAll(dir)
 	sc := bufio.NewScanner(fi)
 	sc.Buffer(make([]byte, 1<<20), 1<<26)
+	// Two lanes: the cases with a z event (seconds of silence each) are run one after the other by a
+	// goroutine of their own, started at once, while this goroutine runs the other cases in input
+	// order; the output keeps the input order, a line is written as soon as its case and every case
+	// before it has finished.
+	type job struct {
+		line   string
+		caseNo int
+		res    chan [2]string // lane 1 only
+	}
+	var jobs []*job
+	var stalled []*job
 	caseNo := 0
 	for sc.Scan() {
 		line := sc.Text()
 		if i := strings.IndexByte(line, '\t'); i >= 0 {
 			line = line[:i]
 		}
-		if line == "new" {
+		j := &job{line: line}
+		if line != "new" {
+			caseNo++
+			j.caseNo = caseNo
+			if verifHasStall(line) {
+				j.res = make(chan [2]string, 1)
+				stalled = append(stalled, j)
+			}
+		}
+		jobs = append(jobs, j)
+	}
+	go func() {
+		for _, j := range stalled {
+			impl, verdict := verifRawSocketCase(dir, j.caseNo, j.line, 1)
+			j.res <- [2]string{impl, verdict}
+		}
+	}()
+	for _, j := range jobs {
+		if j.line == "new" {
 			fmt.Fprintln(fo, "new\t")
 			continue
 		}
-		caseNo++
-		impl, verdict := verifRawSocketCase(dir, caseNo, line)
+		var impl, verdict string
+		if j.res != nil {
+			r := <-j.res
+			impl, verdict = r[0], r[1]
+		} else {
+			impl, verdict = verifRawSocketCase(dir, j.caseNo, j.line, 0)
+		}
 		fmt.Fprintf(fo, "%s\t%s\n", impl, strings.ReplaceAll(verdict, "\n", " "))
 		fo.Sync()
 	}
